@@ -45,8 +45,10 @@ func handleSchema(definition *ast.Document) error {
 		queryNodeRef = definition.ImportObjectTypeDefinition("Query", "", nil, nil)
 	}
 
+	// the default names Mutation / Subscription make root operation types only when the schema definition is omitted
+	hasExplicitSchemaDefinition := definition.HasSchemaDefinition()
 	addSchemaDefinition(definition)
-	addMissingRootOperationTypeDefinitions(definition)
+	addMissingRootOperationTypeDefinitions(definition, hasExplicitSchemaDefinition)
 	addIntrospectionQueryFields(definition, queryNodeRef)
 
 	typeNamesVisitor := NewTypeNameVisitor()
@@ -63,7 +65,7 @@ func addSchemaDefinition(definition *ast.Document) {
 	definition.AddSchemaDefinitionRootNode(schemaDefinition)
 }
 
-func addMissingRootOperationTypeDefinitions(definition *ast.Document) {
+func addMissingRootOperationTypeDefinitions(definition *ast.Document, hasExplicitSchemaDefinition bool) {
 	var rootOperationTypeRefs []int
 
 	for i := range definition.RootNodes {
@@ -73,6 +75,8 @@ func addMissingRootOperationTypeDefinitions(definition *ast.Document) {
 			switch {
 			case bytes.Equal(typeName, ast.DefaultQueryTypeName):
 				rootOperationTypeRefs = createRootOperationTypeIfNotExists(definition, rootOperationTypeRefs, ast.OperationTypeQuery, i)
+			case hasExplicitSchemaDefinition:
+				continue
 			case bytes.Equal(typeName, ast.DefaultMutationTypeName):
 				rootOperationTypeRefs = createRootOperationTypeIfNotExists(definition, rootOperationTypeRefs, ast.OperationTypeMutation, i)
 			case bytes.Equal(typeName, ast.DefaultSubscriptionTypeName):
